@@ -263,6 +263,7 @@ WebSocketMsg WebSocket::receive()
 {
 	WebSocketMsg msg;
 	bool haveMsg = false;
+	bool fragmented = false; // a data frame without FIN was received: the message ends with a data frame with FIN
 	while (!haveMsg)
 	{
 		ByteArray buffer;
@@ -323,6 +324,7 @@ WebSocketMsg WebSocket::receive()
 		case 1: // text
 		case 2: // binary
 			msg.append(buffer);
+			fragmented = !fin;
 			break;
 		case 8: // connection close
 		{
@@ -344,7 +346,7 @@ WebSocketMsg WebSocket::receive()
 			break;
 		}
 
-		if (fin)
+		if (fin && (opcode < 8 || !fragmented)) // a control frame between fragments does not end the message
 			haveMsg = true;
 	}
 
